@@ -3,8 +3,8 @@
 import json, os, sys
 here = os.path.dirname(os.path.abspath(__file__))
 sys.path.insert(0, here)
-from wfconfig import PROPS
-from manifest_text import TEXT, NOT_APPLICABLE, HOOK_COMMITS
+from wfconfig import PROPS, TEXT
+from manifest_text import NOT_APPLICABLE, HOOK_COMMITS
 
 checks = []
 for pid in sorted(PROPS):
